@@ -164,6 +164,14 @@ def _call_target(prog, t):
             n = strip_generics(n)
             if n in prog.bodies:
                 return n
+    # `x.into()` goes through core's blanket `impl<T, U: From<T>> Into<U> for T`: it is a call of the workspace's own
+    # `impl From<T> for U` (matched on the argument and result types)
+    if strip_generics(f.get("fn") or "") == "core::convert::Into::into" and len(f.get("ga") or []) == 2:
+        a_, b_ = f["ga"]
+        cands = [q for q, B in prog.bodies.items() if B.crate in WORKSPACE and B.kind != "Closure" and q.split("::")[-1].startswith("from") and B.argc == 1
+                 and (q.endswith("::from")) and B.local_ty(1) == a_ and B.local_ty(0) == b_]
+        if len(cands) == 1:
+            return cands[0]
     return None
 
 
